@@ -323,3 +323,173 @@ func runTypes(c *vh.Ctx, m *vh.Model, tag string, only *TyCase) {
 		}
 	}
 }
+
+// ------------------------------------------------------------ parameters that must keep accepting null
+//
+// The parameter boundaries are exact (`function f(int $x)` refuses null). What must NOT be refused — checked
+// here on every run, cell by cell, so that a stricter Parameter.SetValue cannot quietly break it:
+//
+//   - `T $x = null` (PHP's implicit nullable): null and every value of T, an omitted argument arrives as null;
+//   - `T $x = <non-null default>` with the argument omitted: the default arrives;
+//   - an untyped parameter and `mixed $x`: every value kind.
+//
+// Boundary names: `<fnParam|methParam|closureParam>/nulldefault`, `…/omitted`, `fnParam/untyped`, `fnParam/mixed`
+// (TyCase.Ty = -1 for the untyped / mixed cells, TyCase.Val = -1 for an omitted argument).
+var compatBoundaries = []string{"fnParam/nulldefault", "methParam/nulldefault", "closureParam/nulldefault",
+	"fnParam/omitted", "methParam/omitted", "fnParam/untyped", "fnParam/mixed"}
+
+func isCompatBoundary(b string) bool {
+	for _, x := range compatBoundaries {
+		if x == b {
+			return true
+		}
+	}
+	return false
+}
+
+func compatCases(tag string) []TyCase {
+	tys, vals := tyDecls(), valDecls()
+	var cases []TyCase
+	for _, b := range compatBoundaries {
+		switch {
+		case strings.HasSuffix(b, "/nulldefault"):
+			for i := range tys {
+				for j := range vals {
+					cases = append(cases, TyCase{"ty", tag, b, i, j})
+				}
+			}
+		case strings.HasSuffix(b, "/omitted"):
+			for i := range tys {
+				cases = append(cases, TyCase{"ty", tag, b, i, -1})
+			}
+		default:
+			for j := range vals {
+				cases = append(cases, TyCase{"ty", tag, b, -1, j})
+			}
+		}
+	}
+	return cases
+}
+
+func compatScript(tag string, cases []TyCase) string {
+	at := func(s string) string { return strings.ReplaceAll(s, "@", tag) }
+	tys, vals := tyDecls(), valDecls()
+	var sb strings.Builder
+	sb.WriteString("<?php\n")
+	typePrelude(&sb, tag)
+	fmt.Fprintf(&sb, "class TN%s {\n", tag)
+	for i, t := range tys {
+		fmt.Fprintf(&sb, "  public function mpn_%d(%s $x = null) { return tg%s($x); }\n", i, at(t.Src), tag)
+	}
+	sb.WriteString("}\n")
+	for i, t := range tys {
+		fmt.Fprintf(&sb, "function fpn%s_%d(%s $x = null) { return tg%s($x); }\n", tag, i, at(t.Src), tag)
+	}
+	fmt.Fprintf(&sb, "function fu%s($x) { return tg%s($x); }\nfunction fm%s(mixed $x) { return tg%s($x); }\n", tag, tag, tag, tag)
+	fmt.Fprintf(&sb, "function ccell%s($id, $f) {\n  try { $v = $f(); $r = \"ok=\" . $v; } catch (\\Throwable $e) { $r = \"denied=\" . get_class($e); }\n  echo \"\\n#\", $id, \":\", $r, \"\\n\";\n}\n", tag)
+	for id, c := range cases {
+		v := ""
+		if c.Val >= 0 {
+			v = at(vals[c.Val].Src)
+		}
+		var f string
+		switch c.Boundary {
+		case "fnParam/nulldefault", "fnParam/omitted":
+			f = fmt.Sprintf("fn() => fpn%s_%d(%s)", tag, c.Ty, v)
+		case "methParam/nulldefault", "methParam/omitted":
+			f = fmt.Sprintf("fn() => $n->mpn_%d(%s)", c.Ty, v)
+		case "closureParam/nulldefault":
+			f = fmt.Sprintf("function() { $g = function(%s $x = null) { return tg%s($x); }; return $g(%s); }", at(tys[c.Ty].Src), tag, v)
+		case "fnParam/untyped":
+			f = fmt.Sprintf("fn() => fu%s(%s)", tag, v)
+		case "fnParam/mixed":
+			f = fmt.Sprintf("fn() => fm%s(%s)", tag, v)
+		}
+		fmt.Fprintf(&sb, "$n = new TN%s();\nccell%s(%d, %s);\n", tag, tag, id, f)
+	}
+	return sb.String()
+}
+
+// runParamCompat: see compatBoundaries. Oracle (no model): `T $x = null` denotes ?T; an omitted argument and
+// untyped / mixed parameters accept everything. Model: `bd` for the boundary with the declared type ?T.
+func runParamCompat(c *vh.Ctx, m *vh.Model, tag string, only *TyCase) {
+	tys, vals := tyDecls(), valDecls()
+	cases := compatCases(tag)
+	if only != nil {
+		cases = []TyCase{*only}
+	}
+	out := vh.RunFresh(compatScript(tag, cases))
+	got := map[int]string{}
+	for _, l := range strings.Split(out.Out, "\n") {
+		if !strings.HasPrefix(l, "#") {
+			continue
+		}
+		k := strings.IndexByte(l, ':')
+		if k < 0 {
+			continue
+		}
+		if id, err := strconv.Atoi(l[1:k]); err == nil {
+			if _, dup := got[id]; !dup {
+				got[id] = l[k+1:]
+			}
+		}
+	}
+	if out.Kind != "ok" {
+		viol(c, "ty:script-"+out.Kind, fmt.Sprintf("the parameter compatibility script ended with %s: %s", out.Kind, out.Detail), TyCase{"ty", tag, "compat", -1, -1})
+	}
+	var lines []string
+	var lineOf []int
+	for id, x := range cases {
+		if strings.HasSuffix(x.Boundary, "/nulldefault") {
+			lines = append(lines, "bd\t"+typeH+"\t"+modelBoundary(x.Boundary)+"\t"+vals[x.Val].Model+"\tN\t"+tys[x.Ty].Model)
+			lineOf = append(lineOf, id)
+		}
+	}
+	ans := map[int]string{}
+	if m != nil && len(lines) > 0 {
+		if a, err := m.AskBatch(lines); err != nil {
+			c.Mismatch(nil, "", err.Error(), "model driver failed (compat)")
+		} else {
+			for k, id := range lineOf {
+				ans[id] = a[k]
+			}
+		}
+	}
+	at := func(s string) string { return strings.ReplaceAll(s, "@", tag) }
+	for id, x := range cases {
+		res := got[id]
+		isOK := strings.HasPrefix(res, "ok=")
+		isDenied := strings.HasPrefix(res, "denied=")
+		in, want := true, "null"
+		if x.Val >= 0 {
+			want = at(vals[x.Val].Tag)
+		}
+		if strings.HasSuffix(x.Boundary, "/nulldefault") {
+			in = nullable(tys[x.Ty].Denotes)(vals[x.Val].Name)
+		}
+		c.Eval("ty/"+tag+"/"+x.key(), true)
+		c.Hit("ty:boundary:" + x.Boundary)
+		if a, ok := ans[id]; ok {
+			c.Res.Traces++
+			canon := "?"
+			if isOK {
+				canon = "1"
+			} else if isDenied {
+				canon = "0"
+			}
+			if a != canon {
+				c.Mismatch(x, canon+" ["+res+"]", a, "parameter with a null default: the model's boundary with the declared type ?T differs")
+			}
+		}
+		switch {
+		case !isOK && !isDenied:
+			viol(c, "ty:no-outcome:"+x.Boundary, fmt.Sprintf("no ok/denied marker at %s (%s)", x.key(), res), x)
+		case isOK && !in:
+			viol(c, "type:"+x.Boundary+":nonnull", fmt.Sprintf("a parameter declared %s $x = null accepted a %s value", tys[x.Ty].Src, vals[x.Val].Name), x)
+		case isDenied && in:
+			viol(c, "type:"+x.Boundary+":rejects", fmt.Sprintf("a parameter that must accept the argument (%s) rejected it: %s", x.key(), res), x)
+		case isOK && strings.TrimPrefix(res, "ok=") != want:
+			viol(c, "type:"+x.Boundary+":altered", fmt.Sprintf("the argument arrived as %s, expected %s (%s)", strings.TrimPrefix(res, "ok="), want, x.key()), x)
+		}
+	}
+}
